@@ -295,10 +295,26 @@ def on_crash(case):
         c = cm.materialize(case)
         res["evals"] = 1
         try:
-            terr = territory(mg.RefModel(c["ode"]))
+            ref = mg.RefModel(c["ode"])
+            terr = territory(ref)
         except Exception:  # noqa: BLE001
-            terr = []
-        sig = "C02:c-crash" if "int-quotient" in terr else "C02:c-crash:no-integer-quotient"
+            ref, terr = None, []
+        # the listed crash: the reference, re-evaluated with C int semantics for integer-literal quotients, divides by zero (`1/(1/4)`)
+        # where the text itself is defined.  Any other crash gets another signature (no listed prefix is a prefix of it).
+        sig = "C02:c-crash:integer-quotient-territory" if "int-quotient" in terr else "C02:c-crash:no-integer-quotient"
+        if ref is not None and "int-quotient" in terr:
+            for pt in c["points"][:1] + [{"t": 0.0, "states": ref.defaults()[0], "params": ref.defaults()[1]}]:
+                pt = cm.restrict_point(pt, ref)
+                try:
+                    ref.evaluate(pt["t"], pt["states"], pt["params"])
+                except mg.RefError:
+                    continue
+                try:
+                    ref.evaluate(pt["t"], pt["states"], pt["params"], int_div=True)
+                except mg.RefError as e:
+                    if "zero" in str(e).lower():
+                        sig = "C02:c-crash:integer-division-by-zero"
+                        break
         res["failures"].append(cm.fail(sig, "calling the compiled C functions kills the process (signal, e.g. SIGFPE from an integer division by zero)" + ("" if "int-quotient" in terr else " - and the model has no integer-literal quotient"),
                                        dict({"ode": c["ode"], "points": c["points"]}, **({} if terr else {"general": True})), "values", "process died"))
     except Exception as e:  # noqa: BLE001
